@@ -280,13 +280,23 @@ func (ps *PubSub) subscribe(conn redcon.Conn, pattern bool, channel string) {
 	defer sconn.mu.Unlock()
 
 	// add an entry to the pubsub btree
-	entry := &pubSubEntry{
-		pattern: pattern,
-		channel: channel,
-		sconn:   sconn,
+	var entry *pubSubEntry
+	for ient := range sconn.entries {
+		if ient.pattern == pattern && ient.channel == channel {
+			// Already subscribed. Subscribing again is a no-op.
+			entry = ient
+			break
+		}
 	}
-	ps.chans.Set(entry)
-	sconn.entries[entry] = true
+	if entry == nil {
+		entry = &pubSubEntry{
+			pattern: pattern,
+			channel: channel,
+			sconn:   sconn,
+		}
+		ps.chans.Set(entry)
+		sconn.entries[entry] = true
+	}
 
 	// send a message to the client
 	sconn.dconn.WriteArray(3)
